@@ -306,6 +306,7 @@ struct scanner_s {
     void *char_source;
     read_chars_f read_func;
     int at_eof;
+    int cr_pending;         /* whether the last character so far obtained from the source was a CR */
 
     /* cif version */
     int cif_version;
